@@ -184,6 +184,9 @@ def run(model: RepoModel, rep, tier: str):
     if guards:
         t, lab = guards[-1]
         test = t.test
+        # `if not (A or B): continue` followed by the call is the same guard as `if A or B:` around it
+        while isinstance(test, ast.UnaryOp) and isinstance(test.op, ast.Not):
+            test, lab = test.operand, ("F" if lab == "T" else "T")
         disj = test.values if isinstance(test, ast.BoolOp) and isinstance(test.op, ast.Or) else [test]
         want = {f"{data_param}.lang in {langs_var}", f"config.ANY_LANG in {langs_var}"}
         got = {norm(d) for d in disj}
